@@ -14,4 +14,7 @@ open DI.Py
 def aggregate_use_numba (truth : Term → Bool) : Out :=
   Out.ret [] (Term.app "And" [(Term.sym "dataiter.USE_NUMBA"), (Term.app "Or" [(Term.app "np.issubdtype" [(Term.app ".dtype" [(Term.sym "x")]), (Term.sym "np.bool_")]), (Term.app "np.issubdtype" [(Term.app ".dtype" [(Term.sym "x")]), (Term.sym "np.datetime64")]), (Term.app "np.issubdtype" [(Term.app ".dtype" [(Term.sym "x")]), (Term.sym "np.floating")]), (Term.app "np.issubdtype" [(Term.app ".dtype" [(Term.sym "x")]), (Term.sym "np.integer")])]), (Term.app "not" [(Term.app "np.issubdtype" [(Term.app ".dtype" [(Term.sym "x")]), (Term.sym "np.timedelta64")])])])
 
+/-- the decorators of dataiter/aggregate.py: use_numba, outermost first -/
+def aggregate_use_numba_decorators : List String := []
+
 end DI.Gen
